@@ -41,6 +41,10 @@ def _needs_quote(name: str) -> bool:
 	- It parses as a number
 	- It collides with Vector/Table reserved method names
 	"""
+	# Names need not be strings (Table({1: ...})): show their text
+	if not isinstance(name, str):
+		name = str(name)
+
 	# Always quote empty names
 	if not name:
 		return True
@@ -125,7 +129,7 @@ def _compute_headers(cols, col_indices):
 	# them, even when the first occurrence is hidden behind the "..." column
 	for idx, col in enumerate(cols):
 		# Sanitized dot name
-		if col._name:
+		if col._name is not None:
 			san = _sanitize_user_name(col._name)
 			if san is None:
 				san = f"col{idx}_"
@@ -141,7 +145,7 @@ def _compute_headers(cols, col_indices):
 			continue
 
 		# Display name
-		disp = col._name or ""
+		disp = "" if col._name is None else str(col._name)
 		display_names.append(disp)
 		sanitized_names.append(san)
 
@@ -298,8 +302,8 @@ def _repr_vector(v) -> str:
 	# Compute width: max of data and header (if present)
 	data_width = max(len(s) for s in formatted) if formatted else 0
 	header_width = 0
-	if v._name:
-		header_text = repr(v._name) if _needs_quote(v._name) else v._name
+	if v._name is not None and v._name != "":
+		header_text = repr(v._name) if _needs_quote(v._name) else str(v._name)
 		header_width = len(header_text)
 	
 	width = max(data_width, header_width)
@@ -313,7 +317,7 @@ def _repr_vector(v) -> str:
 	lines = []
 
 	# Optional vector name
-	if v._name:
+	if v._name is not None and v._name != "":
 		lines.append(header_text.ljust(width) if not v._dtype or v._dtype.kind not in (int, float) else header_text.rjust(width))
 
 	lines.extend(formatted)
